@@ -27,6 +27,8 @@ def solver_history(job):
     for (seed, N, W, factor, lam) in job:
         rng = np.random.default_rng(seed)
         a = rng.normal(size=(3 * N * W, N * W))
+        if seed % 3 == 0 and N > 1:
+            a[:, ::N] = 1.25                                  # a flat-lined sensor: zero rows and columns in S
         S = np.cov(a, rowvar=False) * factor if N * W > 1 else np.array([[1.25 * factor]])
         S = np.atleast_2d(S)
         try:
@@ -66,6 +68,9 @@ def build(tier):
             c["lens"] = [c["lens"][0], max(c["W"], c["lens"][0] - 9)]
         if c["fe"] == "single":
             c["lens"] = c["lens"][:1]
+        if i == nbase - 1:
+            c["degenerate"] = "constant_sensor"       # a stuck channel: zero variance in every cluster
+            c["N"] = max(c["N"], 2)
         bases.append(c)
     others = [runs.gen_config(rng, 4500 + i, tier) for i in range(4)]
     for o in others:
